@@ -339,6 +339,30 @@ let run_case oc (line : string) =
                     out_s out
                   end
                 end)
+            | "CT" ->
+                if not (L.mem a.(1) [ "r"; "t" ]) then "X"
+                else begin
+                  let c =
+                    match a.(2) with
+                    | "new" -> Some Ctors.CNew | "default" -> Some Ctors.CDefault
+                    | "with_capacity" -> Some Ctors.CWithCapacity | "with_limits" -> Some Ctors.CWithLimits
+                    | "with_capacity_and_limits" -> Some Ctors.CWithCapacityAndLimits
+                    | "with_hasher" -> Some Ctors.CWithHasher | "with_capacity_and_hasher" -> Some Ctors.CWithCapacityAndHasher
+                    | "full" -> Some Ctors.CFull | "cap_for_strings" -> Some Ctors.CCapForStrings
+                    | "cap_for_bytes" -> Some Ctors.CCapForBytes | "cap_minimal" -> Some Ctors.CCapMinimal
+                    | "lim_for_memory_usage" -> Some Ctors.CLimForMemoryUsage
+                    | _ -> None
+                  in
+                  let cap = n_of_string a.(3) in
+                  let lim = lim_of_string a.(4) in
+                  match c with
+                  | None -> "X"
+                  | Some c ->
+                      if BinNat.N.eqb cap N0 then "X"
+                      else
+                        let b, l = Ctors.ctor_args c cap lim in
+                        Printf.sprintf "CT:%s,%s,%s,%s:0" (string_of_n b) (string_of_lim l) (string_of_n b) (string_of_n b)
+                end
             | "PQ" ->
                 (* concurrent queries of an immutable object: in the model every lookup is a pure function of the
                    (unchanged) object, so all threads agree by construction; the op exists to check that on the code *)
